@@ -7,6 +7,21 @@ import (
 	"strings"
 )
 
+// hold: the party `who` is held back before a call of the given phase: everybody else runs as far
+// as it can, the harness's onHold check is evaluated, then the party goes on.
+func (w *verifWorld) hold(who, phase string) {
+	if w.holdWho == "" || !strings.HasPrefix(who, w.holdWho) || w.holding {
+		return
+	}
+	w.holding = true
+	verifSettle()
+	w.note(who, "held-until-quiescence", phase)
+	if w.onHold != nil {
+		w.onHold(who, phase)
+	}
+	w.holding = false
+}
+
 // scripted healthy runtime: next, (respond, next)*
 func (w *verifWorld) healthyRuntime(nInvokes int, payload string, nInternal int) func(p *verifProc) {
 	return func(p *verifProc) {
@@ -25,6 +40,11 @@ func (w *verifWorld) healthyRuntime(nInvokes int, payload string, nInternal int)
 					if p.dead {
 						return
 					}
+					if i == 0 {
+						w.hold(iwho, "init")
+					} else {
+						w.hold(iwho, "invoke")
+					}
 					r := w.extNext(iwho, id)
 					if r.status != 200 {
 						return
@@ -36,6 +56,11 @@ func (w *verifWorld) healthyRuntime(nInvokes int, payload string, nInternal int)
 		for i := 0; i <= nInvokes; i++ {
 			if p.dead {
 				return
+			}
+			if i == 0 {
+				w.hold(who, "init")
+			} else {
+				w.hold(who, "invoke")
 			}
 			rec := w.runtimeNext(who)
 			if p.dead || rec.status != 200 {
@@ -60,6 +85,7 @@ func (w *verifWorld) healthyRuntime(nInvokes int, payload string, nInternal int)
 func (w *verifWorld) healthyExt(events map[string][]string, nNext int) func(p *verifProc, base string) {
 	return func(p *verifProc, base string) {
 		who := p.name
+		w.hold(who, "register")
 		rec := w.extRegister(who, base, events[base])
 		if rec.status != 200 {
 			return
@@ -68,6 +94,11 @@ func (w *verifWorld) healthyExt(events map[string][]string, nNext int) func(p *v
 		for i := 0; i < nNext; i++ {
 			if p.dead {
 				return
+			}
+			if i == 0 {
+				w.hold(who, "init")
+			} else {
+				w.hold(who, "invoke")
 			}
 			r := w.extNext(who, id)
 			if r.status != 200 || p.dead {
@@ -84,6 +115,13 @@ func (w *verifWorld) healthyExt(events map[string][]string, nNext int) func(p *v
 			w.note(who, "got-event", kind)
 			w.lastBody[who] = b
 			w.bodies[who] = append(w.bodies[who], b)
+			if kind == "SHUTDOWN" && w.extReportsOnShutdown && strings.HasSuffix(who, "-1") {
+				// a first-generation extension that answers SHUTDOWN with an exit/error report
+				// and then exits (the report is recorded while the shutdown is running)
+				w.extExitError(who, id, "Extension.Bye")
+				w.sup.exit(p, 1, 0)
+				return
+			}
 		}
 	}
 }
@@ -112,7 +150,41 @@ func verifInitInvoke(nExt int, subs []string, nInv int, nInt int) {
 	w.sup.runtimeScript = w.healthyRuntime(nInv, "resp-", nInt)
 	w.sup.extScript = w.healthyExt(events, nInv+1)
 
-	ir := w.doInit()
+	// any one party may be held back arbitrarily long (until nothing else can happen)
+	var ir *verifInitResult
+	invokesDone := 0
+	if verifHoldBack {
+		parties := []string{"", "runtime-"}
+		for i := 0; i < nExt; i++ {
+			parties = append(parties, fmt.Sprintf("extension-ext%d-", i))
+		}
+		for j := 0; j < nInt; j++ {
+			parties = append(parties, fmt.Sprintf("internal:internal%d", j))
+		}
+		w.holdWho = parties[verifChoice(len(parties), "party held back")]
+		w.onHold = func(who, phase string) {
+			verifReach("held-" + phase)
+			switch phase {
+			case "register":
+				verifAssert(w.countPrefix("supervisor", "exec", "runtime-") == 0, "the runtime is not started while an external extension has not registered")
+			case "init":
+				verifAssert(ir == nil || !ir.done, "initialisation does not complete while a party has not asked for next")
+				verifAssert(w.count("", "next-returned", "200") == 0, "nobody is served while a party has not asked for next")
+			case "invoke":
+				sub := strings.HasPrefix(who, "runtime-") || strings.HasPrefix(who, "internal:")
+				for n, ev := range events {
+					if strings.HasPrefix(who, "extension-"+n+"-") && len(ev) > 0 && ev[0] == "INVOKE" {
+						sub = true
+					}
+				}
+				if sub {
+					verifAssert(w.count("platform", "invoke-returned", "") == invokesDone, "an invocation is not complete while the runtime or an INVOKE subscriber has not asked for next")
+				}
+			}
+		}
+	}
+
+	ir = w.doInit()
 	verifWaitAll()
 	verifAssert(ir.done && ir.success, "if all parties arrive, initialisation completes")
 
@@ -146,6 +218,8 @@ func verifInitInvoke(nExt int, subs []string, nInv int, nInt int) {
 		ev := verifNondetPayload("event payload")
 		verifAssume(len(ev) <= 6*1024*1024+100)
 		res := w.doInvoke(id, ev)
+		w.note("platform", "invoke-returned", "")
+		invokesDone++
 		verifAssert(res.failure == nil, "healthy invocation succeeds")
 		rtGot := 0
 		for _, e := range w.log {
@@ -218,6 +292,14 @@ func verifInitInvoke(nExt int, subs []string, nInv int, nInt int) {
 	w.CheckEventGrammar()
 	verifReach("done")
 }
+
+var verifHoldBack bool
+
+// held-back variants: any one party is held back until nothing else can happen
+func VerifC03Held2IS()  { verifHoldBack = true; verifInitInvoke(2, []string{"I", "S"}, 1, 0) }
+func VerifC03Held1I1()  { verifHoldBack = true; verifInitInvoke(1, []string{"I"}, 1, 1) }
+func VerifC04Held2_2()  { verifHoldBack = true; verifInitInvoke(2, []string{"I", ""}, 2, 0) }
+func VerifC04Held2_I1() { verifHoldBack = true; verifInitInvoke(1, []string{"I"}, 2, 1) }
 
 func VerifC03Init0()      { verifInitInvoke(0, nil, 1, 0) }
 func VerifC03Init1I()     { verifInitInvoke(1, []string{"I"}, 1, 0) }
